@@ -41,6 +41,29 @@ var symBytes = map[string]string{
 	"c:appendonly": "appendonly", "c:save": "save",
 }
 
+// big values: at and beyond 64 KiB (where a parser or serializer may switch to a kept or pooled buffer); two of the same
+// length with different contents, so that bytes left over from one can be told from the other
+func patterned(n int, seed byte) string {
+	b := make([]byte, n)
+	for i := range b {
+		b[i] = 'a' + byte((i*7+int(seed)*13+i/251)%26)
+	}
+	return string(b)
+}
+
+func init() {
+	symBytes["s:big64a"] = patterned(65536, 1)
+	symBytes["s:big64b"] = patterned(65536, 2)
+	symBytes["s:big70"] = patterned(70001, 3)
+	symBytes["s:big200"] = patterned(200000, 4)
+	symBytes["s:big63"] = patterned(65535, 5)
+	for s, b := range symBytes {
+		if _, ok := bytesSym[b]; !ok {
+			bytesSym[b] = s
+		}
+	}
+}
+
 var bytesSym = func() map[string]string {
 	m := map[string]string{}
 	for s, b := range symBytes {
